@@ -490,12 +490,19 @@ MARKUPISH = re.compile(r"<[/a-zA-Z]|\\<")
 
 
 def check_highlighter_file(path):
+    with open(path, encoding="utf-8") as f:
+        src = f.read()
+    return check_highlighter_text(src, path)
+
+
+def check_highlighter_text(src, path, known_markup=False):
+    """path: label for messages; known_markup: the text only contains tags of the documented language, so
+    lines with markup are compared too (markup stripped)"""
     from clikit.formatter import PlainFormatter
     from clikit.ui.components.exception_trace import Highlighter
 
     fails = []
-    with open(path, encoding="utf-8") as f:
-        src = f.read()
+    src = src.replace("\r\n", "\n")
     lines = src.split("\n")
     if lines and lines[-1] == "":
         lines.pop()
@@ -512,10 +519,10 @@ def check_highlighter_file(path):
     rows = multi_line_rows(lines)
     if rows is not None:
         for i in range(n):
-            if (i + 1) in rows or MARKUPISH.search(lines[i]):
+            if (i + 1) in rows or (MARKUPISH.search(lines[i]) and not known_markup):
                 continue
             shown = pf.remove_format(hl[i])
-            if shown.rstrip() != lines[i].rstrip():
+            if shown.rstrip() != (strip_markup(lines[i]) if known_markup else lines[i]).rstrip():
                 fails.append(("highlighter|line-not-verbatim|" + _line_class(lines[i]), "%s:%d highlighted as %r, source %r" % (path, i + 1, shown[:80], lines[i][:80])))
                 break
         if len(hl) == n + 1 and pf.remove_format(hl[n]).strip():
@@ -609,8 +616,8 @@ def _bounded(ctx, rng, quick, root):
     ctx.check("sources", ("%d seeded cases: statement shape (%d shapes: single / multi-line raise, comments, tabs, non-ASCII, markup in source, "
                           "multi-line strings around / on the failing line, module level, no final newline, lambda, method, closure, chained, real "
                           "errors, decorators, unbalanced markup) x 0-9 filler statements before and 0-6 after x class x message%s x 4 modes out of "
-                          "verbosity {0,1,2,4} x UTF-8 x ANSI per case (all 16 modes for the first 22): render succeeds, content, snippet "
-                          "numbering / marker / verbatim lines") % (n_cases, len([s for s in SHAPES if not s["extra"]]), "" if quick else " x CRLF"))
+                          "verbosity {0,1,2,4} x UTF-8 x ANSI per case in quick (all 16 modes for the first 22 and for every case in thorough): render "
+                          "succeeds, content, snippet numbering / marker / verbatim lines; plus the highlighter alone over each whole generated file") % (n_cases, len([s for s in SHAPES if not s["extra"]]), "" if quick else " x CRLF"))
     fail = _Failer(ctx)
     budget = 14 if quick else 360
     t0 = time.time()
@@ -628,13 +635,18 @@ def _bounded(ctx, rng, quick, root):
         msg = MESSAGES[0] if ci < len(shapes) else rng.choice(MESSAGES)
         cn = rng.choice(list(EXC))
         case = make_case(shape, pre, post, cn, msg, crlf=(not quick and rng.random() < 0.1))
-        modes = MODES_FULL if ci < len(shapes) else rng.sample(MODES_FULL, 4)
+        modes = MODES_FULL if (ci < len(shapes) or not quick) else rng.sample(MODES_FULL, 4)
         results, nontriv = run_case(case, modes, root)
         key = _case_key(case)
         for mode, fl in results:
             ctx.case([key, mode], nontrivial=nontriv, sample={"shape": shape, "fillers": [npre, npost], "exc": cn, "mode": mode})
             for sig, what in fl:
                 fail(sig, what, {"case": case, "mode": mode})
+        # the highlighter alone over the whole generated file (all lines, not only the 9 of the snippet)
+        if case_class(case) == "sourced":
+            ctx.case([key, "highlighter"], nontrivial=True)
+            for sig, what in check_highlighter_text(case["text"], "generated:" + shape, known_markup=True)[0]:
+                fail(sig, what, {"case": case, "mode": "highlighter"})
     ctx.done(exhaustive=False, note="" if complete else "stopped by the time budget after %d cases" % ci)
 
     # ------------------------------------------------------------ source-less
@@ -743,6 +755,8 @@ def replay_bounded(check_id, failure):
             got = check_render(e, info, mode, "sourced")
             if kind == "nothing" and marker not in ANSI_RE.sub("", _render_plain(e, mode)) and mode["verbosity"] in (1, 2):
                 got.append(("ignore|unmatched-frame-dropped", "a frame whose file does not match the ignore pattern is missing"))
+        elif w.get("mode") == "highlighter":
+            got = check_highlighter_text(w["case"]["text"], "generated:" + w["case"]["shape"], known_markup=True)[0]
         else:
             results, _ = run_case(w["case"], [w["mode"]], root)
             got = results[0][1]
